@@ -55,7 +55,17 @@ def evaluate(case, res):
         arg = seg.text.strip()
         arg = re.split(r'\s', arg, maxsplit=1)
         arg = arg[1].strip() if len(arg) > 1 else ''
-        parts = arg.split('~')
+        # `matcher ~ N`: the cap is what follows the last `~` that is not inside a quoted string of the matcher
+        parts, cur, quoted = [], '', False
+        for ch in arg:
+            if ch == '"':
+                quoted = not quoted
+            if ch == '~' and not quoted:
+                parts.append(cur)
+                cur = ''
+            else:
+                cur += ch
+        parts.append(cur)
         cap = None
         out = seg.out_lines()
         err = seg.err_lines()
@@ -164,6 +174,10 @@ class Listings(Stage):
             pos = d.int(0, len(items))
             items[pos:pos] = [['cmd', 'filter !'], ['cmd', 'filter ' + x, None, dict(alts=[x], excl=[])],
                               ['cmd', 'filter ' + t, None, dict(alts=[a.strip() for a in t.split(',')], excl=[])], ['cmd', 'list ' + t], ['cmd', 'list']]
+        if d.chance(0.2):
+            # a quoted string may contain a `~` (a path such as ~/src): it belongs to the matcher, not to the cap
+            t = d.choice(['.set_title("~/src")', '("a~b")', '.("~")', '(title="x ~ 2")'])
+            items.append(['cmd', 'list ' + t + d.choice(['', ' ~ 1', ' ~ 2', '~3'])])
         V0 = rm.vocab(specs)
         labs = [str(x) for x in (V0.get('label') or [])]
         if labs and d.chance(0.5):
